@@ -167,6 +167,9 @@ def check(ctx):
             site = ctx.site(b, bi)
             n_sites += 1
             sv = strip_sites(detry(vec))
+            # sorting does not change the multiset of elements: look through it
+            while sv[0] == 'mut' and call_name(sv) in ('sort_by', 'sort_unstable_by', 'sort_by_key', 'sort', 'sort_unstable') and sv[2] == 0:
+                sv = sv[3][0]
             # ---------- idioms
             if sv[0] == 'param':
                 # wrapper: follow to callers; its own guards (e.g. validity `all`) are judged below
